@@ -138,7 +138,7 @@ class SkillLevelPatch(DFSTraversePatch):
         return output
 
     def get_skill_level(self, origin: dict):
-        if origin.get("name") and self.default_skill_levels.get(origin["name"]):
+        if origin.get("name") and origin["name"] in self.default_skill_levels:
             skill_level: int = self.default_skill_levels[origin["name"]]
         else:
             skill_level = origin.get("default_skill_level", 0)
